@@ -191,16 +191,13 @@ func CheckC16(r *Report) {
 	r.Rule = "E2 objspace (odometer): Nomenclature() on (a) every subset of defined optional metrics (2^21) x value rotations x base backgrounds, (b) in thorough the full product of all 15 threat+environmental metrics (1,179,648,000 assignments) x 3 backgrounds of base+supplemental metrics, (c) every single supplemental/base value over all 2^15 threat/environmental presence patterns; oracle: CVSS-B + T iff E defined + E iff any of CR..MSA defined; distinct = distinct assignments"
 	var n Counter
 	var nontriv atomic.Int64
-	fn := func(idx int, a spec.Assignment, o *gocvss40.CVSS40) {
-		n.Add(idx, 1)
-		if k, e, ob := nomCheck(a, o); k != "" {
-			ac := a.Clone()
-			r.Violation(Case{Kind: "nomenclature", Key: k, Expected: e, Observed: ob + " on " + o.Vector(), Args: map[string]any{"vector": ver.Full(a)}},
-				func() bool {
-					oo, _ := NewOS(I40, NewReport("x", "quick", 0)).Build(ac)
-					k2, _, _ := nomCheck(ac, &oo)
-					return k2 != ""
-				})
+	mkfn := func(dims []Dim, bg spec.Assignment) func(idx int, a spec.Assignment, o *gocvss40.CVSS40) {
+		return func(idx int, a spec.Assignment, o *gocvss40.CVSS40) {
+			n.Add(idx, 1)
+			if k, e, ob := nomCheck(a, o); k != "" {
+				iterViolation(r, I40, dims, bg, 16, idx, a, "nomenclature", k, e, ob+" on "+o.Vector(), nil,
+					func(a spec.Assignment, o *gocvss40.CVSS40) string { k2, _, _ := nomCheck(a, o); return k2 })
+			}
 		}
 	}
 	bad := func(a spec.Assignment, why string) {
@@ -227,7 +224,7 @@ func CheckC16(r *Report) {
 			dims = append(dims, Dim{M: mi, Vals: []int8{int8(nd), int8(k)}})
 		}
 		for _, bg := range bgs[:2] {
-			Iterate(I40, dims, bg, 16, fn, bad, r.TooMany)
+			Iterate(I40, dims, bg, 16, mkfn(dims, bg), bad, r.TooMany)
 		}
 	}
 	// (c) every value of every base and supplemental metric x all presence patterns of threat+environmental metrics
@@ -242,7 +239,7 @@ func CheckC16(r *Report) {
 				dims = append(dims, Dim{M: k, Vals: []int8{int8(ver.NDIndex(k)), int8(len(m.Values) - 1)}})
 			}
 		}
-		Iterate(I40, dims, bgs[0], 16, fn, bad, r.TooMany)
+		Iterate(I40, dims, bgs[0], 16, mkfn(dims, bgs[0]), bad, r.TooMany)
 	}
 	r.SetExtra("presence_states", n.Load())
 	// (b) full product of the 15 threat + environmental metrics
@@ -254,7 +251,7 @@ func CheckC16(r *Report) {
 			}
 		}
 		for _, bg := range bgs {
-			Iterate(I40, FullDims(ver, ms), bg, 16, fn, bad, r.TooMany)
+			Iterate(I40, FullDims(ver, ms), bg, 16, mkfn(FullDims(ver, ms), bg), bad, r.TooMany)
 		}
 	} else {
 		// quick: full product of every window of 6 storage-adjacent threat/environmental metrics
@@ -265,7 +262,7 @@ func CheckC16(r *Report) {
 			}
 		}
 		for st := 0; st+6 <= len(ms); st++ {
-			Iterate(I40, FullDims(ver, ms[st:st+6]), bgs[st%3], 16, fn, bad, r.TooMany)
+			Iterate(I40, FullDims(ver, ms[st:st+6]), bgs[st%3], 16, mkfn(FullDims(ver, ms[st:st+6]), bgs[st%3]), bad, r.TooMany)
 		}
 	}
 	_ = nontriv
@@ -287,11 +284,10 @@ func CheckC16(r *Report) {
 
 func init() {
 	replayers["nomenclature"] = func(c *Case) string {
-		a, ok := spec.V4.Parse(argStr(c, "vector"))
-		if !ok {
-			return "replay vector not in the language"
+		a, o, err := objForReplay(I40, c)
+		if err != nil {
+			return err.Error()
 		}
-		o, _ := NewOS(I40, NewReport("x", "quick", 0)).Build(a)
 		k, e, ob := nomCheck(a, &o)
 		if k == "" {
 			return ""
